@@ -65,6 +65,15 @@ def catalogue():
         "less-than": ("same", 0, lambda E, H, c, L, mk: E.less_than(L, 5, c), "any", "same", False),
         "equals": ("same", 0, lambda E, H, c, L, mk: E.equals(L, 3, c), "any", "same", False),
         "wrap-items": ("same", 0, lambda E, H, c, L, mk: E.vy_map(L, lambda x: [x], c), "any", False, "same"),
+        # the scalar on the LEFT of a vectorising dyad
+        "scalar-add-left": ("same", 0, lambda E, H, c, L, mk: E.add(10, L, c), "any", "same", "same"),
+        "scalar-subtract-left": ("same", 0, lambda E, H, c, L, mk: E.subtract(100, L, c), "any", "same", "same"),
+        "scalar-multiply-left": ("same", 0, lambda E, H, c, L, mk: E.multiply(2, L, c), "any", "same", "same"),
+        "scalar-less-left": ("same", 0, lambda E, H, c, L, mk: E.less_than(7, L, c), "any", "same", False),
+        # items that are themselves INFINITE lists, and flattening whatever arrives
+        "map-to-infinite-lists": ("same", 0, lambda E, H, c, L, mk: E.vy_map(L, lambda x: mk(), c), "any", False, False),
+        "flatten": ("same", 0, lambda E, H, c, L, mk: E.deep_flatten(L, c), "any", True, False),
+        "constant-zero": ("same", 0, lambda E, H, c, L, mk: E.multiply(L, 0, c), "scalar", True, False),
     }
     return C
 
@@ -162,8 +171,8 @@ def main(tier):
     pairs = list(itertools.product(names, repeat=2))
     rng.shuffle(pairs)
     pairs = [p for p in pairs if admissible(p)]
-    for p in pairs[: (200 if tier == "quick" else len(pairs))]:
-        cs.append((list(p), 41 if tier == "thorough" else rng.choice([6, 21, 41])))
+    for i, p in enumerate(pairs):        # every admissible ordered pair; the quick tier reads fewer items of most
+        cs.append((list(p), 41 if tier == "thorough" else rng.choice([6, 21, 41]) if i < 200 else 6))
     ntri = 100 if tier == "quick" else 6000
     while ntri > 0:
         t = [rng.choice(names) for _ in range(3)]
